@@ -190,8 +190,11 @@ def run_tables(binary, N, p):
 
 
 def run_p2p(binary, N, p, sch, lo, hi, sim_seed=1):
+    n = N * p
+    pairs = (min(hi, n) - lo) * n
+    # a healthy run needs about 5*n scheduler steps per pair; a forwarding loop must hit the budget quickly
     return C.run_sim(binary, ["p2p", lo, hi], nodes=N, ppn=p, env={"YGM_COMM_ROUTING": sch}, sim_seed=sim_seed,
-                     log_bytes=16, timeout=900, max_steps=40000000)
+                     log_bytes=16, timeout=600, max_steps=5000 + pairs * (40 * n + 400))
 
 
 def check_tables(res, N, p, envsch, sr, M, model_ok):
